@@ -70,7 +70,7 @@ _CMP = {
 _BIN = {
     ast.Add: lambda a, b: a + b, ast.Sub: lambda a, b: a - b, ast.Mult: lambda a, b: a * b, ast.FloorDiv: lambda a, b: a // b,
     ast.Mod: lambda a, b: a % b, ast.LShift: lambda a, b: a << b, ast.RShift: lambda a, b: a >> b, ast.BitAnd: lambda a, b: a & b,
-    ast.BitOr: lambda a, b: a | b, ast.BitXor: lambda a, b: a ^ b,
+    ast.BitOr: lambda a, b: a | b, ast.BitXor: lambda a, b: a ^ b, ast.Pow: lambda a, b: a ** b if (not isinstance(b, int) or abs(b) < 4096) else (_ for _ in ()).throw(OverflowError()),
 }
 _PURE_METHODS = {
     bytes: {"startswith", "endswith", "hex", "decode", "lstrip", "rstrip", "strip", "find", "index", "count", "join"},
@@ -323,7 +323,7 @@ class Evaluator:
             return True
         return bool(v)
 
-    _DUNDER = {ast.Add: "__add__", ast.Sub: "__sub__", ast.Mult: "__mul__", ast.FloorDiv: "__floordiv__", ast.Mod: "__mod__"}
+    _DUNDER = {ast.Add: "__add__", ast.Sub: "__sub__", ast.Mult: "__mul__", ast.FloorDiv: "__floordiv__", ast.Mod: "__mod__", ast.Pow: "__pow__", ast.Div: "__truediv__"}
     _RDUNDER = {ast.Add: "__radd__", ast.Sub: "__rsub__", ast.Mult: "__rmul__"}
 
     def _obj_method(self, o, name, args):
@@ -344,7 +344,7 @@ class Evaluator:
             ok, r = self._obj_method(b, self._RDUNDER[op], [a])
             if ok:
                 return r
-        if isinstance(a, Obj) or isinstance(b, Obj):
+        if isinstance(a, Obj) or isinstance(b, Obj) or op not in _BIN:
             raise Undecided("operator on objects")
         try:
             return _BIN[op](a, b)
@@ -412,7 +412,18 @@ class Evaluator:
             for op, c in zip(e.ops, e.comparators):
                 right = self._expr(c, env, mod, cls)
                 if isinstance(left, Obj) or isinstance(right, Obj):
-                    if isinstance(op, (ast.Is, ast.IsNot)):
+                    handled = False
+                    if isinstance(op, (ast.Eq, ast.NotEq)) and isinstance(left, Obj) and left.mod != "builtins":
+                        ok_, rv = self._obj_method(left, "__eq__" if isinstance(op, ast.Eq) else "__ne__", [right])
+                        if not ok_ and isinstance(op, ast.NotEq):
+                            ok_, rv = self._obj_method(left, "__eq__", [right])
+                            rv = (not self._truth(rv)) if ok_ else rv
+                        if ok_:
+                            r = self._truth(rv)
+                            handled = True
+                    if handled:
+                        pass
+                    elif isinstance(op, (ast.Is, ast.IsNot)):
                         r = (left is right) == isinstance(op, ast.Is)
                     elif isinstance(op, (ast.In, ast.NotIn)) and not isinstance(right, Obj):
                         # identity membership is the only thing decidable for abstract objects
@@ -431,9 +442,10 @@ class Evaluator:
                 left = right
             return True
         if isinstance(e, ast.BinOp):
-            if type(e.op) not in _BIN:
+            lv, rv_ = self._expr(e.left, env, mod, cls), self._expr(e.right, env, mod, cls)
+            if type(e.op) not in _BIN and not (isinstance(lv, Obj) or isinstance(rv_, Obj)):
                 raise Undecided("operator %s" % type(e.op).__name__)
-            return self._binop(type(e.op), self._expr(e.left, env, mod, cls), self._expr(e.right, env, mod, cls))
+            return self._binop(type(e.op), lv, rv_)
         if isinstance(e, ast.IfExp):
             return self._expr(e.body if self._truth(self._expr(e.test, env, mod, cls)) else e.orelse, env, mod, cls)
         if isinstance(e, (ast.List, ast.Tuple, ast.Set)):
